@@ -160,6 +160,9 @@ def run(ctx, rep):
     run_expansion_rule(P, rep)
     primitive_roundtrip_rule(P, rep)
     info_roundtrip_rule(P, rep)
+    from .C07 import past_hash_cleared_rule
+    past_hash_cleared_rule(P, rep, 'R-C10-7')
+    empty_disk_rule(P, rep)
 
 
 # written member -> restored member, when the two sides legitimately use different names
@@ -687,3 +690,45 @@ def info_roundtrip_rule(P, rep, rid='R-C10-6'):
     if bad:
         rep.fail(rid, 'info record round trip', wf.file, bad, function='state_write_thread', construct='info round trip')
     rep.extra['info_roundtrips'] = nrun
+
+
+def empty_disk_rule(P, rep, rid='R-C10-8'):
+    """a disk is left out of the saved state only when it is empty.  The writer emits a record for every element of the disk's
+    collections (files, links, empty directories); the emptiness predicate must therefore test each of those collections for being
+    empty -- sibling agreement between the writer's loops and fs_is_empty.  A collection the predicate forgets is silently dropped."""
+    import re as _re
+    rep.rule(rid, 'fs_is_empty tests every disk collection (disk->*list) that the content writer iterates: a disk holding only links or only empty directories is saved', 3)
+    w = P.fn('state_write_thread') if P.has('state_write_thread') else P.fn('state_write_content')
+    e = P.fn('fs_is_empty')
+    rep.analysed(w); rep.analysed(e)
+
+    from ..grammar import qual_member
+
+    def coll_of(f, o):
+        q = qual_member(f, o)
+        return q.split('.', 1)[1] if q and q.startswith('snapraid_disk.') and q.endswith('list') else None
+
+    def colls(f):
+        ms = {}
+        for i in f.all_insts():
+            if i.op in ('load', 'getelementptr'):
+                k = coll_of(f, ['i', i.id])
+                if k:
+                    ms.setdefault(k, i)
+        return ms
+    wc = colls(w)
+    # tested = the member whose emptiness decides a return 0 in fs_is_empty: argument of tommy_list_empty whose result is branched on
+    tested = {}
+    for c in e.calls('tommy_list_empty'):
+        k = coll_of(e, c.ops[0])
+        if k and any(u.op in ('icmp', 'br') for u in e.users.get(c.id, ())):
+            tested[k] = c
+    if not tested:
+        # any other way of looking at the collections (head pointer, count)
+        tested = colls(e)
+    if len(wc) < 3:
+        raise AnalysisBroken('content writer: disk collections not recognised (%s)' % sorted(wc))
+    for k in sorted(wc):
+        rep.check(k in tested, rid, 'fs_is_empty looks at disk->%s' % k, (tested[k] if k in tested else wc[k]).loc(),
+                  'tested before a disk is declared empty' if k in tested else 'the writer saves the elements of disk->%s but fs_is_empty ignores that collection: a disk that holds only such elements loses its mapping and all of them at the next save' % k,
+                  function='fs_is_empty', construct='disk->%s' % k)
